@@ -51,22 +51,22 @@ RULES = [
 
 
 COMP_RULES = [
-    (r"using ComponentHash = [^;]*;", "", 1),
-    (r"ComponentHash ch;", "for (unsigned r_ = 0; r_ < NC; r_++) ch_[r_] = -1;", 1),
-    (r"std::vector<std::vector<Cell \*>> res;", "res_size = 0;", 1),
-    (r"for \(auto & i: hash_\)\s*\{\s*Cell \*c0 = i\.second;", "for (unsigned s_ = 0; s_ < NPOS; ++s_) if (table[s_]) { CellRef c0 = table[s_];", 1),
-    (r"auto pos = ch\.find\(&c0->coord\);\s*int comp = \(pos != ch\.end\(\)\) \? pos->second : -1;", "int comp = ch_[c0];", 1),
-    (r"pos = ch\.find\(&(\w+)->coord\);\s*comp = \(pos != ch\.end\(\)\) \? pos->second : -1;", r"comp = ch_[\1];", 2),
-    (r"res\.resize\(res\.size\(\) \+ 1\);\s*std::vector<Cell \*> &q = res\.back\(\);", "RES_NEW_ROW(); size_t q = res_size - 1;", 1),
-    (r"q\.push_back\((\w+)\);", r"RES_PUSH(q, \1);", 2),
-    (r"std::size_t", "size_t", 1), (r"q\.size\(\)", "res_rowsize[q]", 1),
-    (r"Cell \*c = q\[index\+\+\];", "CellRef c = res[q][index++];", 1),
-    (r"ch\.insert\(std::make_pair\(&c->coord, components\)\);", "ch_[c] = components;", 1),
+    (r"using ComponentHash = [^;]*;", "", 0),
+    (r"ComponentHash ch;", "for (unsigned r_ = 0; r_ < NC; r_++) ch_[r_] = -1;", 0),
+    (r"std::vector<std::vector<Cell \*>> res;", "res_size = 0;", 0),
+    (r"for \(auto & i: hash_\)\s*\{\s*Cell \*c0 = i\.second;", "for (unsigned s_ = 0; s_ < NPOS; ++s_) if (table[s_]) { CellRef c0 = table[s_];", 0),
+    (r"auto pos = ch\.find\(&c0->coord\);\s*int comp = \(pos != ch\.end\(\)\) \? pos->second : -1;", "int comp = ch_[c0];", 0),
+    (r"pos = ch\.find\(&(\w+)->coord\);\s*comp = \(pos != ch\.end\(\)\) \? pos->second : -1;", r"comp = ch_[\1];", 0),
+    (r"res\.resize\(res\.size\(\) \+ 1\);\s*std::vector<Cell \*> &q = res\.back\(\);", "RES_NEW_ROW(); size_t q = res_size - 1;", 0),
+    (r"q\.push_back\((\w+)\);", r"RES_PUSH(q, \1);", 0),
+    (r"std::size_t", "size_t", 0), (r"q\.size\(\)", "res_rowsize[q]", 0),
+    (r"Cell \*c = q\[index\+\+\];", "CellRef c = res[q][index++];", 0),
+    (r"ch\.insert\(std::make_pair\(&c->coord, components\)\);", "ch_[c] = components;", 0),
     (r"std::vector<Cell \*> nbh;\s*neighbors\(c, nbh\);\s*for \(const auto &n : nbh\)\s*\{",
-     "CellList nbh; nbh.size = 0; { int t_[DIM]; COPY_COORD(t_, C_coord[c]); grid_neighbors(t_, &nbh); } for (size_t ni_ = 0; ni_ < nbh.size; ++ni_) { CellRef n = nbh.v[ni_];", 1),
-    (r"q\.erase\(q\.begin\(\) \+ index\);", "RES_ERASE(q, index);", 1),
-    (r"std::sort\(res\.begin\(\), res\.end\(\), SortComponents\(\)\);", "RES_SORT_BY_SIZE();", 1),
-    (r"return res;", "return;", 1),
+     "CellList nbh; nbh.size = 0; { int t_[DIM]; COPY_COORD(t_, C_coord[c]); grid_neighbors(t_, &nbh); } for (size_t ni_ = 0; ni_ < nbh.size; ++ni_) { CellRef n = nbh.v[ni_];", 0),
+    (r"q\.erase\(q\.begin\(\) \+ index\);", "RES_ERASE(q, index);", 0),
+    (r"std::sort\(res\.begin\(\), res\.end\(\), SortComponents\(\)\);", "RES_SORT_BY_SIZE();", 0),
+    (r"return res;", "return;", 0),
 ]
 
 def S(name, file, sig, which=None, mins=()):
@@ -146,3 +146,14 @@ ASSUMPTIONS = [
 TRUSTED = ["extraction rewrite table of units/C13.py", "memory model and abstract heaps in units/C13/grid_model.h, harness code in units/C13/grid_bounded.c", "CBMC 6.11 + cadical"]
 NOT_COVERED = ["ordering of the reported components by size", "hash function quality, Eigen", "KPIECE Discretization's use of the grid",
                "symmetry of the neighbour relation across arbitrary dimensions (follows from the +-1 probe rule, checked in the window)"]
+
+NATIVE = [dict(name="c13_native_random_histories", driver="native/c13_native.cpp",
+               args=lambda tier, seed: ["search", seed, 3000 if tier == "quick" else 200000], timeout=900)]
+
+
+def replay(ur, scratch, seed):
+    """Search the real GridB<int>/GridN<int> for a failing history (counts, borders, queues, tops, components)."""
+    from vf import native as N, cbmc as C
+    exe = N.build_driver("native/c13_native.cpp", scratch)
+    r = C.run_cmd([exe, "search", str(seed), "60000"], 600, env=N.run_env())
+    return dict(found=(r["rc"] == 1), driver="native/c13_native.cpp", args=["search", seed, 60000], output=r["out"][-2500:])
